@@ -325,4 +325,107 @@ example : runChain (some "s1") (bindChain (some 2) (some ("s2", "s1")) [7] 1) = 
 example : runChain (some "zz") (bindChain (some 2) (some ("s2", "s1")) [7] 1) = (["c1", "c2"], false) := by decide
 example : runChain none (bindChain none none [1, 2] 0) = (["u1", "u2"], true) := by decide
 
+/-! ### the driver's enumeration of all iteration orders -/
+
+/-- the `via` of `Driver.nextAll`: all results through the literal children, or — when there is none — through the
+variable children. -/
+def viaAll (n : Node) (p : String → Node → List (H × Params)) : List (H × Params) :=
+  if (n.lits.flatMap fun kc => p kc.1 kc.2).isEmpty then n.vars.flatMap fun kc => p kc.1 kc.2
+  else n.lits.flatMap fun kc => p kc.1 kc.2
+
+theorem nextAll_single (t : String) (n : Node) :
+    nextAll [t] n = if t = "" ∧ n.item.isSome then n.item.toList.map (fun h => (h, []))
+      else viaAll n fun k c => if matchTok k t then c.item.toList.map (fun h => hit k t (h, [])) else [] := by
+  simp only [nextAll, viaAll]
+
+theorem nextAll_cons_cons (t r0 : String) (rs : List String) (n : Node) :
+    nextAll (t :: r0 :: rs) n =
+      viaAll n fun k c => if matchTok k t then (nextAll (r0 :: rs) c).map (hit k t) else [] := by
+  simp only [nextAll, viaAll]
+
+theorem forEach_viaAll {n : Node} {p : String → Node → Option (H × Params)} {q : String → Node → List (H × Params)}
+    (h1 : ∀ k c r, p k c = some r → r ∈ q k c) (h2 : ∀ k c, p k c = none → q k c = []) :
+    (∀ r, forEach n p = some r → r ∈ viaAll n q) ∧ (forEach n p = none → viaAll n q = []) := by
+  constructor
+  · intro r hr
+    unfold viaAll
+    rcases forEach_some hr with ⟨kc, hm, hp⟩ | ⟨hl, kc, hm, hp⟩
+    · have hmem : r ∈ n.lits.flatMap fun kc => q kc.1 kc.2 := List.mem_flatMap.mpr ⟨kc, hm, h1 _ _ _ hp⟩
+      have hne : (n.lits.flatMap fun kc => q kc.1 kc.2).isEmpty = false := by
+        cases hh : n.lits.flatMap fun kc => q kc.1 kc.2 with
+        | nil => rw [hh] at hmem; cases hmem
+        | cons a b => rfl
+      simp only [hne]; exact hmem
+    · have he : (n.lits.flatMap fun kc => q kc.1 kc.2) = [] := by
+        rw [List.flatMap_eq_nil_iff]; intro kc hkc; exact h2 _ _ (hl kc hkc)
+      simp only [he, List.isEmpty_nil, if_true]
+      exact List.mem_flatMap.mpr ⟨kc, hm, h1 _ _ _ hp⟩
+  · intro hn
+    obtain ⟨hl, hv⟩ := forEach_none hn
+    unfold viaAll
+    have he : (n.lits.flatMap fun kc => q kc.1 kc.2) = [] := by
+      rw [List.flatMap_eq_nil_iff]; intro kc hkc; exact h2 _ _ (hl kc hkc)
+    have hv' : (n.vars.flatMap fun kc => q kc.1 kc.2) = [] := by
+      rw [List.flatMap_eq_nil_iff]; intro kc hkc; exact h2 _ _ (hv kc hkc)
+    simp only [he, List.isEmpty_nil, if_true, hv']
+
+/-- **The driver's enumeration `nextAll` (every result some iteration order of the children maps can produce — used
+for the correspondence check outside the hypothesis) contains what the model's `next` finds, and is empty when `next`
+finds nothing**: 'found or not' never depends on the iteration order, and the deterministic model answer is always
+one of the outcomes the driver accepts. -/
+theorem next_mem_nextAll (toks : List String) : ∀ (n : Node),
+    (∀ r, next toks n = some r → r ∈ nextAll toks n) ∧ (next toks n = none → nextAll toks n = []) := by
+  induction toks with
+  | nil => intro n; exact ⟨fun r h => by simp [next] at h, fun _ => by simp [nextAll]⟩
+  | cons t rest ih =>
+    intro n
+    cases rest with
+    | nil =>
+      rw [nextAll_single]
+      by_cases hc : t = "" ∧ n.item.isSome
+      · simp only [next, hc, and_self, if_true]
+        obtain ⟨_, hi⟩ := hc
+        cases hitem : n.item with
+        | none => rw [hitem] at hi; cases hi
+        | some h => simp
+      · simp only [next, hc, if_false]
+        apply forEach_viaAll
+        · intro k c r hp
+          by_cases hm : matchTok k t = true
+          · simp only [hm, if_true] at hp ⊢
+            cases hci : c.item with
+            | none => rw [hci] at hp; cases hp
+            | some h => rw [hci] at hp; simp at hp ⊢; exact hp.symm
+          · simp only [hm] at hp; cases hp
+        · intro k c hp
+          by_cases hm : matchTok k t = true
+          · simp only [hm, if_true] at hp ⊢
+            cases hci : c.item with
+            | none => rfl
+            | some h => rw [hci] at hp; cases hp
+          · simp only [hm]; rfl
+    | cons r0 rs =>
+      rw [nextAll_cons_cons, next_cons_cons]
+      apply forEach_viaAll
+      · intro k c r hp
+        by_cases hm : matchTok k t = true
+        · simp only [hm, if_true] at hp ⊢
+          cases hn : next (r0 :: rs) c with
+          | none => rw [hn] at hp; cases hp
+          | some x =>
+            rw [hn] at hp
+            simp only [Option.map_some, Option.some.injEq] at hp
+            exact List.mem_map.mpr ⟨x, (ih c).1 x hn, hp⟩
+        · simp only [hm] at hp; cases hp
+      · intro k c hp
+        by_cases hm : matchTok k t = true
+        · simp only [hm, if_true] at hp ⊢
+          cases hn : next (r0 :: rs) c with
+          | none => rw [(ih c).2 hn]; rfl
+          | some x => rw [hn] at hp; cases hp
+        · simp only [hm]; rfl
+
+example : nextAll ["q", "a"] (.mk none [] [(":x", .mk none [("a", newNode (some 1))] []), (":y", .mk none [] [(":z", newNode (some 2))])])
+    = [(1, [("x", "q")]), (2, [("z", "a"), ("y", "q")])] := by decide
+
 end GoZero.C09
